@@ -94,7 +94,7 @@ def run(ctx):
     with open(inp, "w") as f:
         for i, r in enumerate(rows):
             f.write(json.dumps({"id": i + 1, "target": r["target"], "chain": r["chain"], "host": r["host"],
-                                "tls": r["tls"], "draw": r["draw"]}) + "\n")
+                                "tls": r["tls"], "draw": r["draw"], "prior": r.get("prior", "cold")}) + "\n")
     outp = ctx.path("c19_result.json")
     ctx.drv(["-in", inp, "-out", outp, "-workers", "16"], cmd_name="vdrv-tls", timeout=1500)
     out = json.load(open(outp))
@@ -114,6 +114,8 @@ def run(ctx):
         exp, tgt, host, tls = row["expect"], row["target"], row["host"], row["tls"]
         why = sorted(exp["why"])
         shape = "+".join(why) if why else chain_key(row["chain"])
+        if row.get("prior") == "warm":
+            shape += ",after-a-genuine-server-was-accepted"
         agg.tried_row(tgt, shape, host, tls)
         rep = {"row": row, "observed": r}
         srv = r["server"]
